@@ -932,3 +932,46 @@ func FamSharedHooks(seed int64) SysRecord {
 	rec.Events = w.Events()
 	return rec
 }
+
+// FamPanicTwice — two handlers of one link panic one after the other with an error value of the same
+// uncomparable type (a slice type): the first panic ends the link, the second is a consequence; neither
+// may take the process down.
+func FamPanicTwice(seed int64) SysRecord {
+	c := jsonRawCodec()
+	rec := SysRecord{Family: "linkend", Config: "json-raw/message two handlers panic with an error of an uncomparable type", Seed: seed}
+	p, err := newPair(c, seed%2 == 1, -1, seed)
+	if err != nil {
+		rec.Notes = append(rec.Notes, err.Error())
+		return rec
+	}
+	ctx, cancel := context.WithTimeout(context.Background(), 10*time.Second)
+	defer cancel()
+	done := make(chan error, 2)
+	for k := 0; k < 2; k++ {
+		go func() { done <- p.ra.PanicGate(ctx, 985+k) }()
+	}
+	if !waitUntil(func() bool { return hasInv(p.w, "PanicGate", 985) && hasInv(p.w, "PanicGate", 986) }, 3*time.Second) {
+		rec.Notes = append(rec.Notes, "handlers never started")
+	}
+	close(p.w.gate(985))
+	select {
+	case e := <-p.l.ErrB:
+		rec.Calls = append(rec.Calls, SysCall{Tag: 987, Method: "LinkReturn", Ret: "returned", Err: errText(e), Extra: "first handler panic", Done: true})
+	case <-time.After(3 * time.Second):
+		rec.Calls = append(rec.Calls, SysCall{Tag: 987, Method: "LinkReturn", Ret: "DID-NOT-RETURN within 3 s", Extra: "first handler panic"})
+	}
+	close(p.w.gate(986)) // the second panic happens on the link that has already ended
+	time.Sleep(20 * time.Millisecond)
+	p.l.CancelA()
+	p.l.CancelB()
+	p.l.CloseTransport(io.EOF)
+	for k := 0; k < 2; k++ {
+		select {
+		case e := <-done:
+			rec.Calls = append(rec.Calls, SysCall{Tag: 985 + k, From: "A", Method: "InFlightAtEnd", Err: errText(e), Extra: "handler panicked", Done: true})
+		case <-time.After(3 * time.Second):
+			rec.Calls = append(rec.Calls, SysCall{Tag: 985 + k, From: "A", Method: "InFlightAtEnd", Extra: "handler panicked: DID-NOT-RETURN within 3 s"})
+		}
+	}
+	return rec
+}
